@@ -169,6 +169,10 @@ func checkBreadthFirst(r *Run) {
 						(s.Init != nil && stmtHasCallShallow(s.Init, func(c *ast.CallExpr) bool { return isSubmitTo(c, writerC) }))
 				case *ast.AssignStmt:
 					direct = stmtHasCallShallow(s, func(c *ast.CallExpr) bool { return isSubmitTo(c, writerC) })
+				case *ast.ForStmt:
+					// `for inFlight := Submit(root); inFlight; { … }`
+					direct = (s.Init != nil && stmtHasCallShallow(s.Init, func(c *ast.CallExpr) bool { return isSubmitTo(c, writerC) })) ||
+						(s.Cond != nil && stmtHasCallShallow(s.Cond, func(c *ast.CallExpr) bool { return isSubmitTo(c, writerC) }))
 				}
 				if !direct {
 					continue
@@ -284,47 +288,124 @@ func checkBreadthFirst(r *Run) {
 	if coord == nil {
 		r.Undecide("C17-R1: coordinator loop not found")
 	} else {
-		okCond := false
-		leaves := 0
-		ast.Inspect(coord.Body, func(n ast.Node) bool {
-			switch x := n.(type) {
-			case *ast.IfStmt:
-				// `!<received-ok> || <counter>.Load() == 0`
-				closedLeaf, zeroLeaf := false, false
-				if be, isOr := ast.Unparen(x.Cond).(*ast.BinaryExpr); isOr && be.Op == token.LOR {
-					for _, leaf := range []ast.Expr{be.X, be.Y} {
-						switch l := ast.Unparen(leaf).(type) {
-						case *ast.UnaryExpr:
-							if _, isID := ast.Unparen(l.X).(*ast.Ident); isID && l.Op == token.NOT {
-								closedLeaf = true
-							}
-						case *ast.BinaryExpr:
-							if l.Op == token.EQL {
-								for _, pair := range [][2]ast.Expr{{l.X, l.Y}, {l.Y, l.X}} {
-									if call, isCall := ast.Unparen(pair[0]).(*ast.CallExpr); isCall {
-										if sel, isSel := call.Fun.(*ast.SelectorExpr); isSel && sel.Sel.Name == "Load" {
-											if tv, has := info.Types[pair[1]]; has && tv.Value != nil && tv.Value.ExactString() == "0" {
-												zeroLeaf = true
-											}
-										}
+		// The loop's continue condition, as a function of (received-ok, count == 0), must be `ok && count != 0`. Two
+		// spellings: `for { …; if X { break } }` (continue = !X) and `for v := …; v; { …; v = E }` (continue = E).
+		var okObj types.Object
+		ast.Inspect(coord, func(n ast.Node) bool {
+			if as, ok := n.(*ast.AssignStmt); ok && len(as.Lhs) == 2 && len(as.Rhs) == 1 {
+				if call, ok := ast.Unparen(as.Rhs[0]).(*ast.CallExpr); ok && strings.HasSuffix(exprString(r.Fset, call.Fun), "Receive") {
+					if id, ok := as.Lhs[1].(*ast.Ident); ok {
+						okObj = info.Defs[id]
+						if okObj == nil {
+							okObj = info.Uses[id]
+						}
+					}
+				}
+			}
+			return true
+		})
+		var evalCoord func(e ast.Expr, okVal, zeroVal bool) (bool, bool)
+		evalCoord = func(e ast.Expr, okVal, zeroVal bool) (bool, bool) {
+			switch x := ast.Unparen(e).(type) {
+			case *ast.Ident:
+				if okObj != nil && info.Uses[x] == okObj {
+					return okVal, true
+				}
+			case *ast.UnaryExpr:
+				if x.Op == token.NOT {
+					v, known := evalCoord(x.X, okVal, zeroVal)
+					return !v, known
+				}
+			case *ast.BinaryExpr:
+				switch x.Op {
+				case token.LAND, token.LOR:
+					a, ka := evalCoord(x.X, okVal, zeroVal)
+					b, kb := evalCoord(x.Y, okVal, zeroVal)
+					if x.Op == token.LAND {
+						return a && b, ka && kb
+					}
+					return a || b, ka && kb
+				case token.EQL, token.NEQ, token.GTR, token.LEQ:
+					for _, pair := range [][2]ast.Expr{{x.X, x.Y}, {x.Y, x.X}} {
+						if call, isCall := ast.Unparen(pair[0]).(*ast.CallExpr); isCall {
+							if sel, isSel := call.Fun.(*ast.SelectorExpr); isSel && sel.Sel.Name == "Load" {
+								if tv, has := info.Types[pair[1]]; has && tv.Value != nil && tv.Value.ExactString() == "0" {
+									switch {
+									case x.Op == token.EQL:
+										return zeroVal, true
+									case x.Op == token.NEQ:
+										return !zeroVal, true
+									case x.Op == token.GTR && pair[0] == x.X: // count > 0 (the count is never negative)
+										return !zeroVal, true
+									case x.Op == token.LEQ && pair[0] == x.X:
+										return zeroVal, true
 									}
 								}
 							}
 						}
 					}
 				}
-				if closedLeaf && zeroLeaf {
-					for _, st := range x.Body.List {
-						if b, ok := st.(*ast.BranchStmt); ok && b.Tok == token.BREAK {
-							okCond = true
-						}
-					}
-				}
+			}
+			return false, false
+		}
+		var cont ast.Expr
+		contNeg := false
+		leaves := 0
+		ast.Inspect(coord.Body, func(n ast.Node) bool {
+			switch n.(type) {
+			case *ast.FuncLit:
+				return false
 			case *ast.BranchStmt, *ast.ReturnStmt:
 				leaves++
 			}
 			return true
 		})
+		switch {
+		case coord.Cond == nil && leaves == 1:
+			for _, st := range coord.Body.List {
+				if ifs, ok := st.(*ast.IfStmt); ok && ifs.Else == nil && len(ifs.Body.List) == 1 {
+					if b, ok := ifs.Body.List[0].(*ast.BranchStmt); ok && b.Tok == token.BREAK && b.Label == nil {
+						cont, contNeg = ifs.Cond, true
+					}
+					if _, ok := ifs.Body.List[0].(*ast.ReturnStmt); ok {
+						cont, contNeg = ifs.Cond, true
+					}
+				}
+			}
+		case coord.Cond != nil && leaves == 0:
+			if id, ok := ast.Unparen(coord.Cond).(*ast.Ident); ok {
+				vobj := info.Uses[id]
+				nassign := 0
+				for _, st := range coord.Body.List {
+					if as, ok := st.(*ast.AssignStmt); ok && len(as.Lhs) == 1 && len(as.Rhs) == 1 && as.Tok == token.ASSIGN {
+						if lid, ok := as.Lhs[0].(*ast.Ident); ok && info.Uses[lid] == vobj {
+							cont = as.Rhs[0]
+							nassign++
+						}
+					}
+				}
+				if nassign != 1 {
+					cont = nil
+				}
+			}
+		}
+		okCond := cont != nil
+		if cont != nil {
+			for _, okVal := range []bool{false, true} {
+				for _, zeroVal := range []bool{false, true} {
+					v, known := evalCoord(cont, okVal, zeroVal)
+					if contNeg {
+						v = !v
+					}
+					if !known || v != (okVal && !zeroVal) {
+						okCond = false
+					}
+				}
+			}
+		}
+		if okCond {
+			leaves = 1
+		}
 		if okCond && leaves == 1 {
 			r.Pass("C17-R1-termination", "BreadthFirst:coordinator-exit", coord.Pos(), "the coordinator leaves only when the completion channel is closed/cancelled or the count is zero")
 		} else {
